@@ -15,7 +15,7 @@ def lattice(ctx_scale=1.0):
     L = {}
     L['Henry'] = [{'K': k * s} for k in (0.01, 1.0, 50.0)]
     L['Langmuir'] = [{'K': k * s, 'n_m': n} for k in (0.05, 2.0, 80.0) for n in (0.3, 5.0)]
-    L['DSLangmuir'] = [{'n_m1': a, 'K1': k1 * s, 'n_m2': b, 'K2': k2 * s} for a, b in ((1.0, 3.0), (4.0, 0.5)) for k1, k2 in ((20.0, 0.5), (2.0, 2.0), (0.3, 40.0))]
+    L['DSLangmuir'] = [{'n_m1': a, 'K1': k1 * s, 'n_m2': b, 'K2': k2 * s} for a, b in ((1.0, 3.0), (4.0, 0.5), (2.0, 2.0)) for k1, k2 in ((20.0, 0.5), (2.0, 2.0), (0.3, 40.0))]
     L['TSLangmuir'] = [{'n_m1': a, 'K1': k1 * s, 'n_m2': b, 'K2': k2 * s, 'n_m3': c, 'K3': k3 * s}
                        for a, b, c in ((1.0, 2.0, 1.5), (0.2, 3.0, 0.7)) for k1, k2, k3 in ((30.0, 3.0, 0.3), (1.0, 1.0, 1.0), (0.5, 50.0, 5.0))]
     L['BET'] = [{'n_m': n, 'C': c * s, 'N': N} for n in (0.5, 4.0) for c in (0.5, 20.0, 500.0) for N in (0.3, 0.95)]
